@@ -65,7 +65,7 @@ func (rule *RuleEvents) checkCron(spec *String) {
 	sched, err := p.Parse(spec.Value)
 	if err != nil {
 		// The parser's error may echo the spec as is. Keep the message in one line
-		msg := strings.ReplaceAll(err.Error(), "\n", " ")
+		msg := oneLine(err.Error())
 		rule.Errorf(spec.Pos, "invalid CRON format %q in schedule event: %s", spec.Value, msg)
 		return
 	}
